@@ -1,4 +1,9 @@
-"""C20 - host trust and the debugger's gates cannot be bypassed (structural clauses)."""
+"""C20 - host trust and the debugger's gates cannot be bypassed (structural clauses).
+
+Guards are compared as canonical atoms (wzsa/guards.py) with local aliases and
+boolean flags expanded, and small predicate / normalisation helpers are followed,
+so restructured conditions, hoisted conjuncts and extracted helpers read the same.
+"""
 
 from __future__ import annotations
 
@@ -7,6 +12,7 @@ import ast
 from .. import astq
 from ..cfg import CFG, Node, cfg_of
 from ..dataflow import ReachingDefs
+from ..guards import Aliases, atom, canon, guard_set, has
 from ..loader import AnalysisError, FuncInfo, dotted, norm, walk_no_nested
 from ..report import Ctx
 
@@ -28,12 +34,26 @@ TRUSTED = ["CPython ast", "the idna codec raises UnicodeError (base class) for e
 ASSUMPTIONS = ["letter-case variants of a trusted host may go either way (as the property states)"]
 
 
-def _g(cfg: CFG, node: Node) -> set[str]:
-    return {f"{norm(t.ast)}:{l}" for t, l in cfg.guards(node)}
+class F:
+    def __init__(self, fi: FuncInfo):
+        self.fi = fi
+        self.cfg = cfg_of(fi)
+        self.rd = ReachingDefs(self.cfg, fi.params)
+        self.al = Aliases(self.cfg, self.rd)
+
+    def g(self, node: Node) -> set[tuple[str, bool]]:
+        return self.al.guard_set(node)
+
+    def tests(self):
+        return [t for t in self.cfg.tests() if t.kind == "test"]
 
 
-def _has_guard(g: set[str], *alts: str) -> bool:
-    return any(a in g for a in alts)
+def _fmt(g) -> list[str]:
+    return sorted(f"{k}:{'T' if v else 'F'}" for k, v in g)
+
+
+def _any(g, *texts: str, value: bool = True) -> bool:
+    return any(has(g, t, value) for t in texts)
 
 
 def run(ctx: Ctx) -> None:
@@ -53,7 +73,8 @@ def run(ctx: Ctx) -> None:
     if call is None:
         raise AnalysisError("DebuggedApplication.__call__ missing")
     ctx.saw(call)
-    ccfg = cfg_of(call)
+    fc = F(call)
+    ccfg = fc.cfg
 
     # ---------------- R20.1 -------------------------------------------
     evals = []
@@ -64,31 +85,24 @@ def run(ctx: Ctx) -> None:
                 evals.append((fi, c))
             if dotted(c.func) in ("eval", "exec"):
                 evals.append((fi, c))
-    ctx.ob("R20.1", "frame evaluation occurs only in execute_command", [f.qualname for f, _ in evals] == ["DebuggedApplication.execute_command"], f"eval sites: {[f.qualname for f, _ in evals]}", app.methods["execute_command"], evals[0][1] if evals else None, "eval sites")
-    ec = app.methods["execute_command"]
-    callers = []
-    for fi in repo.all_functions():
-        for c in astq.calls(fi.node):
-            if isinstance(c.func, ast.Attribute) and c.func.attr == "execute_command":
-                callers.append((fi, c))
-    ctx.ob("R20.1", "execute_command is called only from the dispatcher", [f.qualname for f, _ in callers] == ["DebuggedApplication.__call__"], f"callers: {[f.fq for f, _ in callers]}", call, callers[0][1] if callers else None, "execute_command callers")
+    ctx.ob("R20.1", "frame evaluation occurs only in execute_command", [x.qualname for x, _ in evals] == ["DebuggedApplication.execute_command"], f"eval sites: {[x.qualname for x, _ in evals]}", app.methods["execute_command"], evals[0][1] if evals else None, "eval sites")
+    callers = [(fi, c) for fi in repo.all_functions() for c in astq.calls(fi.node) if isinstance(c.func, ast.Attribute) and c.func.attr == "execute_command"]
+    ctx.ob("R20.1", "execute_command is called only from the dispatcher", [x.qualname for x, _ in callers] == ["DebuggedApplication.__call__"], f"callers: {[x.fq for x, _ in callers]}", call, callers[0][1] if callers else None, "execute_command callers")
     if callers:
         cn = ccfg.node_of(callers[0][1])
-        g = _g(ccfg, cn)
+        g = fc.g(cn)
         need = {
-            "evaluation enabled": ("self.evalex:T",),
-            "a command is given": ("cmd is not None:T",),
-            "the frame exists": ("frame is not None:T",),
-            "the secret matches": ("self.secret == secret:T", "secret == self.secret:T"),
-            "the PIN cookie is trusted": ("self.check_pin_trust(environ):T", "self.check_pin_trust(request.environ):T"),
-            "inside the debugger branch": ("request.args.get('__debugger__') == 'yes':T",),
+            "evaluation enabled": ("self.evalex",),
+            "a command is given": ("cmd is not None", "request.args.get('cmd') is not None"),
+            "the frame exists": ("frame is not None",),
+            "the secret matches": ("self.secret == secret", "self.secret == request.args.get('s')"),
+            "the PIN cookie is trusted": ("self.check_pin_trust(environ)", "self.check_pin_trust(request.environ)"),
+            "inside the debugger branch": ("request.args.get('__debugger__') == 'yes'",),
         }
         for what, alts in need.items():
-            ctx.ob("R20.1", f"eval dispatch requires: {what}", _has_guard(g, *alts), f"dominating guards of the call: {sorted(g)}", call, callers[0][1], f"eval gate {what}")
-        # arguments: the command and the frame that were tested
+            ctx.ob("R20.1", f"eval dispatch requires: {what}", _any(g, *alts), f"dominating guards of the call: {_fmt(g)}", call, callers[0][1], f"eval gate {what}")
         a = callers[0][1].args
         ctx.ob("R20.1", "the tested cmd and frame are the ones evaluated", len(a) == 3 and norm(a[1]) == "cmd" and norm(a[2]) == "frame", f"args {[norm(x) for x in a]}", call, callers[0][1], "eval args")
-        # slots: secret / frame / cmd come from the request
         for nm, src in (("secret", "request.args.get('s')"), ("cmd", "request.args.get('cmd')")):
             ds = [norm(v) for _, v in astq.assigns_to(call.node, nm) if v is not None]
             ctx.ob("R20.1", f"`{nm}` is the request's parameter", ds == [src], f"{ds}", call, call.node, f"slot {nm}")
@@ -105,11 +119,10 @@ def run(ctx: Ctx) -> None:
         ctx.saw(fi)
         cfg = cfg_of(fi)
         ht = [t for t in cfg.tests() if t.kind == "test" and isinstance(t.ast, ast.Call) and isinstance(t.ast.func, ast.Attribute) and t.ast.func.attr == "check_host_trust"]
+        nh += 1
         if len(ht) != 1:
-            nh += 1
             ctx.ob("R20.2", f"{hn} checks the Host", False, f"{len(ht)} host check(s)", fi, fi.node, f"{hn} host check")
             continue
-        nh += 1
         t = ht[0]
         arg_ok = len(t.ast.args) == 1 and norm(t.ast.args[0]) in ("request.environ",)
         others = [n for n in cfg.nodes if n.ast is not None and n is not t and n.kind in ("stmt", "test", "loop", "with") and not (isinstance(n.ast, ast.Expr) and isinstance(n.ast.value, ast.Constant))]
@@ -118,70 +131,88 @@ def run(ctx: Ctx) -> None:
         undominated = [n for n in others if n not in fside and not cfg.edge_dominates(t, "T", n)]
         ctx.ob("R20.2", f"{hn}: every statement is behind the host check", arg_ok and not undominated and fret, f"host check on request.environ: {arg_ok}; false edge returns SecurityError: {fret}; statements not dominated by the true edge: {[n.text()[:40] for n in undominated]}", fi, t.ast, f"{hn} host gate")
     ctx.floor("R20.2", "command handlers with a host check", nh, 4)
-    # dispatch guards
-    for meth, need in (
-        ("display_console", [("self.evalex:T",), ("self.console_path is not None:T",), ("request.path == self.console_path:T", "self.console_path == request.path:T")]),
-        ("pin_auth", [("cmd == 'pinauth':T",), ("secret == self.secret:T", "self.secret == secret:T"), ("request.args.get('__debugger__') == 'yes':T",)]),
-        ("log_pin_request", [("cmd == 'printpin':T",), ("secret == self.secret:T", "self.secret == secret:T"), ("request.args.get('__debugger__') == 'yes':T",)]),
+    for meth, need2 in (
+        ("display_console", [("self.evalex",), ("self.console_path is not None",), ("request.path == self.console_path",)]),
+        ("pin_auth", [("cmd == 'pinauth'",), ("secret == self.secret",), ("request.args.get('__debugger__') == 'yes'",)]),
+        ("log_pin_request", [("cmd == 'printpin'",), ("secret == self.secret",), ("request.args.get('__debugger__') == 'yes'",)]),
     ):
         cs = [c for c in astq.calls(call.node) if isinstance(c.func, ast.Attribute) and c.func.attr == meth]
         if len(cs) != 1:
             ctx.ob("R20.2", f"dispatcher calls {meth} once", False, f"{len(cs)} call(s)", call, call.node, f"dispatch {meth}")
             continue
-        g = _g(ccfg, ccfg.node_of(cs[0]))
-        miss = [alts[0] for alts in need if not _has_guard(g, *alts)]
-        ctx.ob("R20.2", f"dispatch of {meth} is guarded", not miss, f"missing guards {miss}; has {sorted(g)}", call, cs[0], f"dispatch {meth} guards")
-        other_callers = [f.fq for f in repo.all_functions() for c in astq.calls(f.node) if isinstance(c.func, ast.Attribute) and c.func.attr == meth and f is not call]
+        g = fc.g(ccfg.node_of(cs[0]))
+        miss = [alts[0] for alts in need2 if not _any(g, *alts)]
+        ctx.ob("R20.2", f"dispatch of {meth} is guarded", not miss, f"missing guards {miss}; has {_fmt(g)}", call, cs[0], f"dispatch {meth} guards")
+        other_callers = [x.fq for x in repo.all_functions() for c in astq.calls(x.node) if isinstance(c.func, ast.Attribute) and c.func.attr == meth and x is not call]
         ctx.ob("R20.2", f"{meth} has no other caller", not other_callers, f"{other_callers}", call, cs[0], f"{meth} callers")
     cht = app.methods["check_host_trust"]
     ctx.ob("R20.2", "check_host_trust is host_is_trusted(Host header, self.trusted_hosts)", any(norm(r.value) == "host_is_trusted(environ.get('HTTP_HOST'), self.trusted_hosts)" for r in astq.returns_of(cht.node)), "", cht, cht.node, "check_host_trust body")
 
     # ---------------- R20.3 -------------------------------------------
     pa = app.methods["pin_auth"]
-    cfg = cfg_of(pa)
-    rd = ReachingDefs(cfg, pa.params)
-    thr = [t for t in cfg.tests() if t.kind == "test" and isinstance(t.ast, ast.Compare) and "_failed_pin_auth.value" in norm(t.ast.left) and isinstance(t.ast.ops[0], (ast.Gt, ast.GtE))]
-    pin_cmp = [t for t in cfg.tests() if t.kind == "test" and isinstance(t.ast, ast.Compare) and isinstance(t.ast.ops[0], ast.Eq) and "entered_pin" in norm(t.ast) and "pin" in norm(t.ast.comparators[0])]
-    if len(thr) != 1 or len(pin_cmp) != 1:
+    fp = F(pa)
+    cfg = fp.cfg
+    thr = []
+    for t in fp.tests():
+        e = fp.al.expand(t.ast, t)
+        if isinstance(e, ast.Compare) and len(e.ops) == 1 and "_failed_pin_auth.value" in norm(e) and isinstance(e.ops[0], (ast.Gt, ast.GtE, ast.Lt, ast.LtE)):
+            thr.append((t, e))
+    pin_cmp = []
+    for t in fp.tests():
+        e = fp.al.expand(t.ast, t)
+        txt = norm(e)
+        if "request.args['pin']" in txt and ("pin" in {n.id for n in ast.walk(e) if isinstance(n, ast.Name)} or "self.pin" in txt):
+            pin_cmp.append((t, e))
+    if len(thr) != 1 or len(pin_cmp) < 1:
         raise AnalysisError(f"pin_auth: threshold test ({len(thr)}) / PIN comparison ({len(pin_cmp)}) slots not found")
-    th, pc = thr[0], pin_cmp[0]
-    const = th.ast.comparators[0]
-    k = const.value if isinstance(const, ast.Constant) else None
-    strict = isinstance(th.ast.ops[0], ast.Gt)
-    ctx.ob("R20.3", "failure threshold is `> 10` (more than ten failures)", (k == 10 and strict) or (k == 11 and not strict), f"`{norm(th.ast)}`", pa, th.ast, "pin threshold constant")
-    ctx.ob("R20.3", "PIN is compared only below the failure threshold", cfg.edge_dominates(th, "F", pc), "PIN comparison dominated by the false edge of the threshold test", pa, pc.ast, "pin compare below threshold")
-    # reading the submitted PIN is also below the threshold
+    th, th_e = thr[0]
+    # every test that looks at the submitted PIN must sit below the threshold; the last one in program order is the
+    # reference for the match / mismatch edges
+    pin_cmp.sort(key=lambda x: x[0].lineno)
+    pc, pc_e = pin_cmp[-1]
+    extra_pin_tests = [t for t, _ in pin_cmp[:-1]]
+    pin_eq_ok, match_label, pin_fact = _pin_test_shape(ctx, pa, pc_e)
+    ctx.ob("R20.3", "the PIN test is an equality of the submitted and the configured PIN", pin_eq_ok, pin_fact, pa, pc.ast, "pin comparison shape")
+    miss_label = "F" if match_label == "T" else "T"
+    # canonical forms: `v > 10` -> "10 < v" (true = exceeded); `v >= 11` -> "v < 11" (false = exceeded)
+    k, p = canon(th_e)
+    exceeded_label = None
+    if k == "10 < self._failed_pin_auth.value":
+        exceeded_label = "T" if p else "F"
+    elif k == "self._failed_pin_auth.value < 11":
+        exceeded_label = "F" if p else "T"
+    ctx.ob("R20.3", "failure threshold is `more than ten failures`", exceeded_label is not None, f"`{norm(th.ast)}` (canonical `{k}`)", pa, th.ast, "pin threshold constant")
+    below = "F" if exceeded_label == "T" else "T"
+    all_below = exceeded_label is not None and all(cfg.edge_dominates(th, below, t) for t in [pc] + extra_pin_tests)
+    ctx.ob("R20.3", "PIN is compared only below the failure threshold", all_below, f"{1 + len(extra_pin_tests)} test(s) on the submitted PIN, each dominated by the not-exceeded edge of the threshold test: {all_below}", pa, pc.ast, "pin compare below threshold")
     auth_sets = [n for n in cfg.nodes if isinstance(n.ast, ast.Assign) and astq.is_name(n.ast.targets[0], "auth") and norm(n.ast.value) == "True"]
-    trust_t = [t for t in cfg.tests() if t.kind == "test" and norm(t.ast) == "trust"]
+    trust_t = [t for t in fp.tests() if norm(t.ast) == "trust"]
     ok = bool(auth_sets)
     facts = []
-    for a in auth_sets:
-        by_pin = cfg.edge_dominates(pc, "T", a)
-        by_trust = any(cfg.edge_dominates(t, "T", a) for t in trust_t)
-        facts.append(f"L{a.lineno}: pin-compare={by_pin} cookie-trust={by_trust}")
+    for a_ in auth_sets:
+        by_pin = cfg.edge_dominates(pc, match_label, a_)
+        by_trust = any(cfg.edge_dominates(t, "T", a_) for t in trust_t)
+        facts.append(f"L{a_.lineno}: pin-compare={by_pin} cookie-trust={by_trust}")
         ok = ok and (by_pin or by_trust)
     ctx.ob("R20.3", "auth becomes True only by a trusted cookie or a matching PIN", ok, "; ".join(facts), pa, pa.node, "auth sources")
     tdefs = [norm(v) for _, v in astq.assigns_to(pa.node, "trust") if v is not None]
     ctx.ob("R20.3", "`trust` is check_pin_trust(request.environ)", tdefs == ["self.check_pin_trust(request.environ)"], f"{tdefs}", pa, pa.node, "trust source")
     other_auth = [norm(s) for s, v in astq.assigns_to(pa.node, "auth") if v is None or norm(v) not in ("True", "False")]
     ctx.ob("R20.3", "auth is only ever assigned constants", not other_auth, f"{other_auth}", pa, pa.node, "auth constants")
-    # failures counted: comparison false edge, and trust is None
     fails = [cfg.node_of(c) for c in astq.calls(pa.node) if isinstance(c.func, ast.Attribute) and c.func.attr == "_fail_pin_auth"]
-    f_on_wrong = any(cfg.edge_dominates(pc, "F", f) for f in fails)
-    none_t = [t for t in cfg.tests() if t.kind == "test" and norm(t.ast) == "trust is None"]
-    f_on_bad_cookie = bool(none_t) and any(cfg.edge_dominates(none_t[0], "T", f) for f in fails)
+    f_on_wrong = any(cfg.edge_dominates(pc, miss_label, x) for x in fails)
+    none_t = [t for t in fp.tests() if canon(t.ast)[0] == "trust is None"]
+    f_on_bad_cookie = bool(none_t) and any(cfg.edge_dominates(none_t[0], "T" if canon(none_t[0].ast)[1] else "F", x) for x in fails)
     ctx.ob("R20.3", "a wrong PIN and a forged cookie each count as a failure", f_on_wrong and f_on_bad_cookie, f"wrong PIN -> _fail_pin_auth: {f_on_wrong}; bad cookie hash -> _fail_pin_auth: {f_on_bad_cookie}", pa, pa.node, "failures counted")
-    # every path from the PIN comparison's false edge to the exit passes a failure
-    wrong_paths_ok = all(cfg.all_paths_pass(s, [cfg.exit], [f for f in fails if f is not None]) for s in cfg.succ(pc, "F"))
+    wrong_paths_ok = all(cfg.all_paths_pass(s, [cfg.exit], [x for x in fails if x is not None]) for s in cfg.succ(pc, miss_label))
     ctx.ob("R20.3", "no path from a wrong PIN to the response skips the failure counter", wrong_paths_ok, "", pa, pc.ast, "wrong pin always counted")
     sc = [cfg.node_of(c) for c in astq.calls(pa.node) if isinstance(c.func, ast.Attribute) and c.func.attr == "set_cookie"]
-    auth_t = [t for t in cfg.tests() if t.kind == "test" and norm(t.ast) == "auth"]
-    ctx.ob("R20.3", "the PIN cookie is issued only when authenticated", bool(sc) and bool(auth_t) and all(cfg.edge_dominates(auth_t[0], "T", s) for s in sc), f"{len(sc)} set_cookie call(s)", pa, pa.node, "cookie only under auth")
+    ctx.ob("R20.3", "the PIN cookie is issued only when authenticated", bool(sc) and all(has(guard_set(cfg, s), "auth") for s in sc), f"{len(sc)} set_cookie call(s)", pa, pa.node, "cookie only under auth")
     resets = [n for n in cfg.nodes if isinstance(n.ast, ast.Assign) and "_failed_pin_auth.value" in norm(n.ast.targets[0])]
-    ctx.ob("R20.3", "the failure counter is reset only by a matching PIN", all(cfg.edge_dominates(pc, "T", n) and norm(n.ast.value) == "0" for n in resets), f"{[norm(n.ast) for n in resets]}", pa, pa.node, "counter reset")
-    fp = app.methods["_fail_pin_auth"]
-    ctx.saw(fp)
-    incs = [s for s in ast.walk(fp.node) if isinstance(s, (ast.Assign, ast.AugAssign)) and "_failed_pin_auth.value" in norm(s.targets[0] if isinstance(s, ast.Assign) else s.target)]
+    ctx.ob("R20.3", "the failure counter is reset only by a matching PIN", all(cfg.edge_dominates(pc, match_label, n) and norm(n.ast.value) == "0" for n in resets), f"{[norm(n.ast) for n in resets]}", pa, pa.node, "counter reset")
+    fpa = app.methods["_fail_pin_auth"]
+    ctx.saw(fpa)
+    incs = [s for s in ast.walk(fpa.node) if isinstance(s, (ast.Assign, ast.AugAssign)) and "_failed_pin_auth.value" in norm(s.targets[0] if isinstance(s, ast.Assign) else s.target)]
     ok = False
     fact = f"{[norm(s) for s in incs]}"
     if len(incs) == 1:
@@ -190,52 +221,63 @@ def run(ctx: Ctx) -> None:
             ok = isinstance(s.op, ast.Add) and isinstance(s.value, ast.Constant) and s.value.value == 1
         else:
             v = s.value
-            if isinstance(v, ast.BinOp) and isinstance(v.op, ast.Add) and isinstance(v.right, ast.Constant) and v.right.value == 1:
-                base = v.left
-                if isinstance(base, ast.Name):
-                    ds = [norm(x) for _, x in astq.assigns_to(fp.node, base.id) if x is not None]
-                    ok = ds == ["self._failed_pin_auth.value"]
-                else:
-                    ok = norm(base) == "self._failed_pin_auth.value"
+            if isinstance(v, ast.BinOp) and isinstance(v.op, ast.Add) and (isinstance(v.left, ast.Constant) or isinstance(v.right, ast.Constant)):
+                one, base = (v.right, v.left) if isinstance(v.right, ast.Constant) else (v.left, v.right)
+                if one.value == 1:
+                    if isinstance(base, ast.Name):
+                        ds = [norm(x) for _, x in astq.assigns_to(fpa.node, base.id) if x is not None]
+                        ok = ds == ["self._failed_pin_auth.value"]
+                    else:
+                        ok = norm(base) == "self._failed_pin_auth.value"
         lock = astq.enclosing(s, (ast.With,))
         locked = isinstance(lock, ast.With) and any("get_lock()" in norm(i.context_expr) for i in lock.items)
         fact += f"; strict +1 of the stored value: {ok}; under get_lock(): {locked}"
         ok = ok and locked
-    ctx.ob("R20.3", "_fail_pin_auth strictly increments the shared counter under its lock", ok, fact, fp, fp.node, "counter increment")
+    ctx.ob("R20.3", "_fail_pin_auth strictly increments the shared counter under its lock", ok, fact, fpa, fpa.node, "counter increment")
 
     # ---------------- R20.4 -------------------------------------------
     cp = app.methods["check_pin_trust"]
     ctx.saw(cp)
-    cfg = cfg_of(cp)
-    rets = [(cfg.node_of(r), r) for r in astq.returns_of(cp.node)]
-    hash_t = [t for t in cfg.tests() if t.kind == "test" and isinstance(t.ast, ast.Compare) and "hash_pin(self.pin)" in norm(t.ast) and "pin_hash" in norm(t.ast)]
+    fcp = F(cp)
+    cfg = fcp.cfg
     n4 = 0
-    for node, r in rets:
+    exp_key = atom("time.time() - PIN_TIME < ts")
+    for r in astq.returns_of(cp.node):
+        node = cfg.node_of(r)
         v = norm(r.value)
-        g = _g(cfg, node)
+        g = fcp.g(node)
         n4 += 1
         if v == "True":
-            ok = g == {"self.pin is None:T"}
+            ok = has(g, "self.pin is None") and len({k for k, _ in g}) == 1
             exp = "True only when the PIN is switched off"
+            cons = "True"
         elif v in ("False", "None"):
             ok = True
             exp = "falsy"
+            cons = v
         else:
-            cmp_ = astq.cmp_parts(r.value) if r.value is not None else None
-            shape = bool(cmp_) and isinstance(cmp_[1], ast.Lt) and norm(cmp_[0]) == "time.time() - PIN_TIME" and norm(cmp_[2]) == "ts"
-            hashed = len(hash_t) == 1 and (cfg.edge_dominates(hash_t[0], "F", node) if isinstance(hash_t[0].ast.ops[0], ast.NotEq) else cfg.edge_dominates(hash_t[0], "T", node))
+            shape = canon(r.value) == exp_key
+            hashed = has(g, "pin_hash == hash_pin(self.pin)")
             ok = shape and hashed
-            exp = f"expiry comparison (shape ok: {shape}) after hash equality (dominated: {hashed})"
-        ctx.ob("R20.4", f"check_pin_trust `return {v}`", ok, f"{exp}; guards {sorted(g)}", cp, r, f"pin trust return {v} under {sorted(g)}")
+            exp = f"expiry comparison (canonical `{canon(r.value)[0]}`; shape ok: {shape}) after hash equality (dominated: {hashed})"
+            cons = canon(r.value)[0]
+        ctx.ob("R20.4", f"check_pin_trust `return {v}`", ok, f"{exp}; guards {_fmt(g)}", cp, r, f"pin trust return {cons}")
     ctx.floor("R20.4", "returns of check_pin_trust", n4, 3)
     ints = [c for c in astq.calls(cp.node) if dotted(c.func) == "int"]
     ok = bool(ints)
+    sep_ok = bool(ints)
     for c in ints:
         tr = astq.enclosing(c, (ast.Try,))
         ok = ok and isinstance(tr, ast.Try) and any((dotted(h.type) or "") in ("ValueError", "Exception") and any(isinstance(s, ast.Return) and norm(s.value) == "False" for s in h.body) for h in tr.handlers)
+        g = fcp.g(cfg.node_of(c))
+        via_in = any(k.startswith("'|' in ") and v for k, v in g)
+        via_part = False
+        for st in walk_no_nested(cp.node):
+            if isinstance(st, ast.Assign) and isinstance(st.targets[0], ast.Tuple) and isinstance(st.value, ast.Call) and isinstance(st.value.func, ast.Attribute) and st.value.func.attr in ("partition", "rpartition") and st.value.args and astq.const_str(st.value.args[0]) == "|" and len(st.targets[0].elts) == 3 and isinstance(st.targets[0].elts[1], ast.Name):
+                via_part = via_part or has(g, st.targets[0].elts[1].id)
+        sep_ok = sep_ok and (via_in or via_part)
     ctx.ob("R20.4", "a non-numeric timestamp yields False", ok, "int(ts_str) inside try/except ValueError -> return False", cp, cp.node, "timestamp parse")
-    sp = [t for t in cfg.tests() if t.kind == "test" and norm(t.ast) in ("'|' not in val", "'|' in val")]
-    ctx.ob("R20.4", "a cookie without '|' yields False before unpacking", len(sp) == 1, "", cp, cp.node, "cookie separator test")
+    ctx.ob("R20.4", "a cookie without '|' yields False before it is taken apart", sep_ok, "the timestamp is parsed only under a positive separator test", cp, cp.node, "cookie separator test")
     hp = repo.func("debug.hash_pin")
     ctx.ob("R20.4", "hash_pin is a salted sha1 prefix of the PIN", "sha1" in norm(hp.node) and "pin" in norm(hp.node), "", hp, hp.node, "hash_pin")
 
@@ -243,32 +285,71 @@ def run(ctx: Ctx) -> None:
     _host_rules(ctx)
 
 
-def _norm_chain(e: ast.AST) -> list[str]:
-    out = []
-    for name, c in astq.method_chain(e):
-        out.append(f"{name}({', '.join(norm(a) for a in c.args)})")
-    return out
+def _pin_test_shape(ctx: Ctx, pa: FuncInfo, e: ast.AST) -> tuple[bool, str, str]:
+    """(is an equality of submitted vs configured PIN, label of the matching edge, fact)"""
+    pos = True
+    while isinstance(e, ast.UnaryOp) and isinstance(e.op, ast.Not):
+        e = e.operand
+        pos = not pos
+    if isinstance(e, ast.Compare) and len(e.ops) == 1 and isinstance(e.ops[0], (ast.Eq, ast.NotEq)):
+        eq = isinstance(e.ops[0], ast.Eq)
+        sides = {("request.args['pin']" in norm(e.left)), ("request.args['pin']" in norm(e.comparators[0]))}
+        ok = sides == {True, False}
+        return ok, ("T" if eq == pos else "F"), f"`{norm(e)}`"
+    if isinstance(e, ast.Call):
+        d = dotted(e.func)
+        f = pa.module.functions.get(d or "")
+        if f is not None:
+            rets = astq.returns_of(f.node)
+            if len(rets) == 1 and isinstance(rets[0].value, ast.Compare) and isinstance(rets[0].value.ops[0], ast.Eq) and len(f.params) == 2:
+                c = rets[0].value
+                names_l = {n.id for n in ast.walk(c.left) if isinstance(n, ast.Name)} & set(f.params)
+                names_r = {n.id for n in ast.walk(c.comparators[0]) if isinstance(n, ast.Name)} & set(f.params)
+                ok = len(names_l) == 1 and len(names_r) == 1 and names_l != names_r
+                return ok, ("T" if pos else "F"), f"helper {d}: `return {norm(c)}`"
+    return False, "T", f"unrecognised PIN test `{norm(e)}`"
+
+
+def _shape_of(v: ast.AST, var: str) -> str:
+    """normalisation applied to `var`: the expression text with the variable replaced by `_`."""
+    src = ast.parse(ast.unparse(v), mode="eval").body
+
+    class T(ast.NodeTransformer):
+        def visit_Name(self, n):  # noqa: N802
+            return ast.copy_location(ast.Name(id="_", ctx=n.ctx), n) if n.id == var else n
+
+    return norm(T().visit(src))
 
 
 def _host_rules(ctx: Ctx) -> None:
     repo = ctx.repo
     hit = repo.func("sansio.utils.host_is_trusted")
     ctx.saw(hit)
-    cfg = cfg_of(hit)
+    fh = F(hit)
+    cfg = fh.cfg
+    # module-level helpers reachable from host_is_trusted (transitively)
+    scope = [hit]
+    i = 0
+    while i < len(scope):
+        for c in astq.calls(scope[i].node):
+            d = dotted(c.func)
+            if d and d in hit.module.functions and hit.module.functions[d] not in scope:
+                scope.append(hit.module.functions[d])
+        i += 1
     trues = [cfg.node_of(r) for r in astq.returns_of(hit.node) if norm(r.value) == "True"]
-    eq_t = [t for t in cfg.tests() if t.kind == "test" and isinstance(t.ast, ast.Compare) and isinstance(t.ast.ops[0], ast.Eq) and {norm(t.ast.left), norm(t.ast.comparators[0])} == {"ref", "hostname"}]
-    suf_t = [t for t in cfg.tests() if t.kind == "test" and isinstance(t.ast, ast.Call) and isinstance(t.ast.func, ast.Attribute) and t.ast.func.attr == "endswith" and astq.is_name(t.ast.func.value, "hostname")]
-    flag_t = [t for t in cfg.tests() if t.kind == "test" and norm(t.ast) == "suffix_match"]
+    eq_t = [t for t in fh.tests() if canon(t.ast)[0] == "hostname == ref"]
+    suf_t = [t for t in fh.tests() if isinstance(t.ast, ast.Call) and isinstance(t.ast.func, ast.Attribute) and t.ast.func.attr == "endswith" and astq.is_name(t.ast.func.value, "hostname")]
     ok = bool(trues) and len(eq_t) == 1
     fact = f"return True sites: {len(trues)}; equality tests: {len(eq_t)}; suffix tests: {len(suf_t)}"
     if ok:
-        avoid = [(eq_t[0], "T")] + [(s, "T") for s in suf_t]
+        avoid = [(eq_t[0], "T" if canon(eq_t[0].ast)[1] else "F")] + [(s, "T") for s in suf_t]
         r = cfg.reach(avoid_edges=avoid)
         leak = [t for t in trues if t.id in r]
         ok = not leak
         if leak:
             fact += "; `return True` reachable without the equality or the suffix test: " + cfg.fmt_path(cfg.path(cfg.entry, leak[0], avoid_edges=avoid) or [])
     ctx.ob("R20.5", "True only under `ref == hostname` or the accepted suffix idiom `hostname.endswith('.' + ref)`", ok, fact + " (accepted subdomain idioms: dot-anchored str.endswith of the normalised entry)", hit, hit.node, "host match conditions")
+    flags = _dot_flags(fh)
     for s in suf_t:
         a = s.ast.args[0] if s.ast.args else None
         dot = False
@@ -276,95 +357,103 @@ def _host_rules(ctx: Ctx) -> None:
             dot = True
         if isinstance(a, ast.BinOp) and isinstance(a.op, ast.Add) and astq.const_str(a.left) == "." and astq.is_name(a.right, "ref"):
             dot = True
-        flagged = bool(flag_t) and all(cfg.edge_dominates(f, "T", s) for f in flag_t)
-        ctx.ob("R20.5", "suffix test is dot-anchored and only for dot-prefixed entries", dot and flagged, f"`{norm(s.ast)}`; dot-anchored: {dot}; dominated by suffix_match: {flagged}", hit, s.ast, "suffix test shape")
-    # suffix_match is True only for entries that start with '.'
-    fl = astq.assigns_to(hit.node, "suffix_match")
-    st = [t for t in cfg.tests() if t.kind == "test" and norm(t.ast) == "ref.startswith('.')"]
-    ok = len(st) == 1 and all((norm(v) == "True" and cfg.edge_dominates(st[0], "T", cfg.node_of(s))) or (norm(v) == "False" and cfg.edge_dominates(st[0], "F", cfg.node_of(s))) for s, v in fl if v is not None) and len(fl) == 2
-    ctx.ob("R20.5", "suffix matching is enabled exactly for entries starting with '.'", ok, f"{[norm(s) for s, _ in fl]}", hit, hit.node, "suffix flag")
-    # same normalisation on both sides
-    hchain = [_norm_chain(v) for _, v in astq.assigns_to(hit.node, "hostname") if v is not None]
-    rchain = [_norm_chain(v) for _, v in astq.assigns_to(hit.node, "ref") if v is not None and _norm_chain(v)]
-    same = bool(hchain) and bool(rchain) and all(h == hchain[0] for h in hchain) and all(r == hchain[0] for r in rchain)
-    ctx.ob("R20.5", "Host and entry pass the same normalisation", same, f"host: {hchain}; entry: {rchain}", hit, hit.node, "normalisation symmetry")
-    idna = any("encode('idna')" in x for ch in hchain for x in ch)
-    ctx.ob("R20.5", "names are compared in IDNA (ASCII) form", idna, f"{hchain}", hit, hit.node, "idna normalisation")
-    # bracket-aware port strip (contradiction with get_host, which treats '[...]' as an address literal)
+        g = guard_set(cfg, s)
+        flagged = any((fl, True) in g for fl in flags) or has(g, "ref.startswith('.')")
+        ctx.ob("R20.5", "suffix test is dot-anchored and only for dot-prefixed entries", dot and flagged, f"`{norm(s.ast)}`; dot-anchored: {dot}; only when the entry started with '.': {flagged} (flags {sorted(flags)})", hit, s.ast, "suffix test shape")
+    ctx.ob("R20.5", "suffix matching is enabled exactly for entries starting with '.'", bool(flags) or not suf_t, f"dot flags {sorted(flags)}", hit, hit.node, "suffix flag")
+    hshape = [_shape_of(v, "hostname") for _, v in astq.assigns_to(hit.node, "hostname") if v is not None]
+    rshape = [_shape_of(v, "ref") for _, v in astq.assigns_to(hit.node, "ref") if v is not None and norm(v) not in ("ref[1:]",) and not (isinstance(v, ast.Call) and isinstance(v.func, ast.Attribute) and v.func.attr in ("removeprefix", "lstrip"))]
+    same = bool(hshape) and bool(rshape) and all(h == hshape[0] for h in hshape) and all(r == hshape[0] for r in rshape)
+    ctx.ob("R20.5", "Host and entry pass the same normalisation", same, f"host: {hshape}; entry: {rshape}", hit, hit.node, "normalisation symmetry")
+    idna = any(isinstance(c.func, ast.Attribute) and c.func.attr == "encode" and c.args and astq.const_str(c.args[0]) == "idna" for fi in scope for c in astq.calls(fi.node))
+    ctx.ob("R20.5", "names are compared in IDNA (ASCII) form", idna, f"normalisation {hshape}", hit, hit.node, "idna normalisation")
     gh = repo.func("sansio.utils.get_host")
     ctx.saw(gh)
     bracket_in_get_host = any(isinstance(c, ast.Constant) and c.value == "[" for c in ast.walk(gh.node))
-    scope = [hit]
-    for c in astq.calls(hit.node):
-        d = dotted(c.func)
-        if d and d in hit.module.functions and hit.module.functions[d] not in scope:
-            scope.append(hit.module.functions[d])
     cuts = []
     for fi in scope:
         fcfg = cfg_of(fi)
         for c in astq.calls(fi.node):
             if isinstance(c.func, ast.Attribute) and c.func.attr in ("partition", "split", "rpartition", "rsplit") and c.args and astq.const_str(c.args[0]) == ":":
                 node = fcfg.node_of(c)
-                guards = _g(fcfg, node) if node is not None else set()
-                aware = any("'['" in x or "']'" in x for x in guards)
+                guards = guard_set(fcfg, node) if node is not None else set()
+                aware = any("'['" in k or "']'" in k for k, _ in guards)
                 cuts.append((fi, c, aware))
     ctx.floor("R20.5", "port strips", len(cuts), 1)
     for fi, c, aware in cuts:
         ctx.ob("R20.5", "port strip does not cut a bracketed address literal at its first colon", aware or not bracket_in_get_host, f"`{norm(c)}` in {fi.name}: guarded by a bracket test: {aware}; get_host treats '[...]' hosts as IPv6 literals: {bracket_in_get_host}", fi, c, f"port strip {norm(c)} in {fi.name}")
-    # idna errors yield False
     n_enc = 0
+
+    def covering_try(fi: FuncInfo, node: ast.AST) -> tuple[bool, str]:
+        tr = astq.enclosing(node, (ast.Try,))
+        fact = "not inside a try"
+        while isinstance(tr, ast.Try):
+            if any(node is x for s in tr.body for x in ast.walk(s)):
+                for h in tr.handlers:
+                    names = [dotted(e) or "" for e in (h.type.elts if isinstance(h.type, ast.Tuple) else [h.type])] if h.type is not None else ["BaseException"]
+                    covers = any(nm.rsplit(".", 1)[-1] in ("UnicodeError", "ValueError", "Exception", "BaseException") for nm in names)
+                    falsy = any(isinstance(s, ast.Return) and norm(s.value) == "False" for s in h.body)
+                    fact = f"handler {names}: covers UnicodeError={covers}; returns False={falsy}"
+                    if covers and falsy:
+                        return True, fact
+            tr = astq.enclosing(tr, (ast.Try,))
+        return False, fact
+
+    def covered_everywhere(fi: FuncInfo, depth: int = 0) -> tuple[bool, str]:
+        sites = [(g_, c) for g_ in scope for c in astq.calls(g_.node) if dotted(c.func) == fi.name]
+        if not sites or depth > 3:
+            return False, "helper is never called from host_is_trusted"
+        for g_, c in sites:
+            ok_, why = covering_try(g_, c)
+            if ok_:
+                continue
+            if g_ is hit:
+                return False, f"call in host_is_trusted not covered: {why}"
+            ok2, why2 = covered_everywhere(g_, depth + 1)
+            if not ok2:
+                return False, why2
+        return True, "covered at every call site"
+
     for fi in scope:
         for c in astq.calls(fi.node):
             if isinstance(c.func, ast.Attribute) and c.func.attr == "encode" and c.args and astq.const_str(c.args[0]) == "idna":
                 n_enc += 1
-                tr = astq.enclosing(c, (ast.Try,))
-                ok = False
-                fact = "not inside a try"
-                while isinstance(tr, ast.Try):
-                    if any(c is x for s in tr.body for x in ast.walk(s)):
-                        for h in tr.handlers:
-                            names = [dotted(e) or "" for e in (h.type.elts if isinstance(h.type, ast.Tuple) else [h.type])] if h.type is not None else ["BaseException"]
-                            covers = any(nm.rsplit(".", 1)[-1] in ("UnicodeError", "ValueError", "Exception", "BaseException") for nm in names)
-                            falsy = any(isinstance(s, ast.Return) and norm(s.value) == "False" for s in h.body)
-                            fact = f"handler {names}: covers UnicodeError={covers}; returns False={falsy}"
-                            if covers and falsy:
-                                ok = True
-                        if ok:
-                            break
-                    tr = astq.enclosing(tr, (ast.Try,))
-                # a helper without its own handler is fine when every call of it from host_is_trusted is covered
+                ok, fact = covering_try(fi, c)
                 if not ok and fi is not hit:
-                    ok_all = True
-                    for cc in astq.calls(hit.node):
-                        if dotted(cc.func) == fi.name:
-                            t2 = astq.enclosing(cc, (ast.Try,))
-                            cov = isinstance(t2, ast.Try) and any(
-                                any((dotted(e) or "").rsplit(".", 1)[-1] in ("UnicodeError", "ValueError", "Exception") for e in (h.type.elts if isinstance(h.type, ast.Tuple) else [h.type])) and any(isinstance(s, ast.Return) and norm(s.value) == "False" for s in h.body)
-                                for h in t2.handlers if h.type is not None
-                            )
-                            ok_all = ok_all and cov
-                    ok = ok_all
-                    fact += f"; covered at every call site in host_is_trusted: {ok_all}"
-                ctx.ob("R20.5", "every failure of the idna codec yields False", ok, f"`{norm(c)}` in {fi.name}: {fact}", fi, c, f"idna errors {norm(c)} in {fi.name}")
+                    ok, fact2 = covered_everywhere(fi)
+                    fact += f"; {fact2}"
+                ctx.ob("R20.5", "every failure of the idna codec yields False", ok, f"`{norm(c)}` in {fi.name}: {fact}", fi, c, f"idna errors {_shape_of(c, 'hostname').replace('ref', '_').replace('host', '_')}")
+                # the codec is what rejects empty and over-long labels: it must run for every name, not only for some
+                fcfg_ = cfg_of(fi)
+                cond = set()
+                for tn_, lab_ in fcfg_.guards(fcfg_.node_of(c)):
+                    if tn_.kind != "test":
+                        continue
+                    k_, p_ = canon(tn_.ast)
+                    if "'['" in k_ or "']'" in k_:
+                        continue  # bracketed address literal handling
+                    other = fcfg_.succ(tn_, "F" if lab_ == "T" else "T")
+                    if other and all(isinstance(o.ast, ast.Return) and norm(o.ast.value) == "False" for o in other):
+                        continue  # the other edge rejects the name outright
+                    cond.add((k_, (lab_ == "T") == p_))
+                ctx.ob("R20.5", "the idna codec is applied to every name (it is what rejects empty / over-long labels)", not cond, f"`{norm(c)}` in {fi.name} is conditional on {_fmt(cond)}" if cond else "unconditional", fi, c, f"idna unconditional in {fi.name}")
     ctx.floor("R20.5", "idna encodes", n_enc, 1)
-    # empty host -> False first
     first = [s for s in hit.node.body if not (isinstance(s, ast.Expr) and isinstance(s.value, ast.Constant))][0]
-    ctx.ob("R20.5", "a missing Host is never trusted", isinstance(first, ast.If) and norm(first.test) == "not hostname" and any(isinstance(s, ast.Return) and norm(s.value) == "False" for s in first.body), "", hit, first, "empty host")
+    ctx.ob("R20.5", "a missing Host is never trusted", isinstance(first, ast.If) and canon(first.test) == ("hostname", False) and any(isinstance(s, ast.Return) and norm(s.value) == "False" for s in first.body), "", hit, first, "empty host")
     nonconst = [r for r in astq.returns_of(hit.node) if norm(r.value) not in ("True", "False")]
     ctx.ob("R20.5", "every verdict is a constant: True only under the match conditions, False otherwise", not nonconst, f"non-constant returns: {[norm(r) for r in nonconst]}", hit, nonconst[0] if nonconst else hit.node, "constant verdicts")
-    # get_host enforcement
     gcfg = cfg_of(gh)
     raises = [n for n in gcfg.nodes if isinstance(n.ast, ast.Raise) and astq.raised_name(n.ast) == "SecurityError"]
     ok = False
     fact = f"{len(raises)} raise SecurityError"
     if len(raises) == 1:
-        g = _g(gcfg, raises[0])
-        ok = g == {"trusted_hosts is not None:T", "host_is_trusted(host, trusted_hosts):F"}
-        fact = f"guards {sorted(g)}"
+        g = guard_set(gcfg, raises[0])
+        ok = g == {("trusted_hosts is None", False), ("host_is_trusted(host, trusted_hosts)", False)}
+        fact = f"guards {_fmt(g)}"
         rets = [gcfg.node_of(r) for r in astq.returns_of(gh.node)]
-        tn = [t for t in gcfg.tests() if norm(t.ast) == "host_is_trusted(host, trusted_hosts)"]
-        nn = [t for t in gcfg.tests() if norm(t.ast) == "trusted_hosts is not None"]
-        ok = ok and len(tn) == 1 and len(nn) == 1 and all(r.id not in gcfg.reach(avoid_nodes=tn, avoid_edges=[(nn[0], "F")]) for r in rets)
+        tn = [t for t in gcfg.tests() if canon(t.ast)[0] == "host_is_trusted(host, trusted_hosts)"]
+        nn = [t for t in gcfg.tests() if canon(t.ast)[0] == "trusted_hosts is None"]
+        ok = ok and len(tn) == 1 and len(nn) == 1 and all(r.id not in gcfg.reach(avoid_nodes=tn, avoid_edges=[(nn[0], "T" if canon(nn[0].ast)[1] else "F")]) for r in rets)
     ctx.ob("R20.5", "get_host raises SecurityError for an untrusted host whenever a list is configured", ok, fact, gh, gh.node, "get_host enforcement")
     rq = repo.func("sansio.request.Request.host")
     ctx.saw(rq)
@@ -372,3 +461,22 @@ def _host_rules(ctx: Ctx) -> None:
     wg = repo.func("wsgi.get_host")
     ctx.saw(wg)
     ctx.ob("R20.5", "wsgi.get_host passes trusted_hosts on", any(any(norm(a) == "trusted_hosts" for a in list(c.args) + [k.value for k in c.keywords]) for c in astq.calls(wg.node)), "", wg, wg.node, "wsgi get_host forwards list")
+
+
+def _dot_flags(fh: F) -> set[str]:
+    """locals that are true exactly when the current entry started with '.':
+    `flag = ref.startswith('.')`, or `flag = True` / `flag = False` on the two edges of that test."""
+    cfg = fh.cfg
+    out: set[str] = set()
+    names = {t_.id for s in walk_no_nested(fh.fi.node) if isinstance(s, ast.Assign) for t_ in s.targets if isinstance(t_, ast.Name)}
+    st = [t for t in fh.tests() if norm(t.ast) == "ref.startswith('.')"]
+    for nm in names:
+        defs = astq.assigns_to(fh.fi.node, nm)
+        if len(defs) == 1 and defs[0][1] is not None and norm(defs[0][1]) == "ref.startswith('.')":
+            out.add(nm)
+            continue
+        if len(defs) == 2 and len(st) == 1 and all(v is not None and norm(v) in ("True", "False") for _, v in defs):
+            good = all((norm(v) == "True" and cfg.edge_dominates(st[0], "T", cfg.node_of(s))) or (norm(v) == "False" and cfg.edge_dominates(st[0], "F", cfg.node_of(s))) for s, v in defs)
+            if good and {norm(v) for _, v in defs} == {"True", "False"}:
+                out.add(nm)
+    return out
